@@ -171,6 +171,7 @@ def image_and_grid_from(image, mask, mask_radius, pixel_scales, hilbert_length):
     grid = Grid2D.uniform(
         shape_native=(shape_nnn, shape_nnn),
         pixel_scales=pixel_scales,
+        origin=mask.origin,
     )
 
     x1d_hb, y1d_hb = grid_hilbert_order_from(
@@ -179,7 +180,7 @@ def image_and_grid_from(image, mask, mask_radius, pixel_scales, hilbert_length):
 
     grid_hb = np.stack((y1d_hb, x1d_hb), axis=-1)
     grid_hb_radius = np.sqrt(grid_hb[:, 0] ** 2.0 + grid_hb[:, 1] ** 2.0)
-    new_grid = grid_hb[grid_hb_radius <= mask_radius]
+    new_grid = grid_hb[grid_hb_radius <= mask_radius] + np.array(mask.origin)
 
     new_img = griddata(
         points=grid,
